@@ -207,6 +207,10 @@ class Dispatcher:
             if action == IDENTREQUEST:
                 action, specifier, data = '_ident', None, None
 
+            elif action == '_ident':
+                # the internal name of the identification handler is not an action
+                raise ProtocolError(f'unhandled message: {repr(msg)}')
+
             self.log.debug('Looking for handle_%s', action)
             handler = getattr(self, f'handle_{action}', None)
 
